@@ -336,6 +336,8 @@ pub fn set_default(dispatcher: &Dispatch) -> DefaultGuard {
 pub fn set_global_default(dispatcher: Dispatch) -> Result<(), SetGlobalDefaultError> {
     // if `compare_exchange` returns Result::Ok(_), then `new` has been set and
     // `current`—now the prior value—has been returned in the `Ok()` branch.
+    #[cfg(all(tracing_verif, feature = "std"))]
+    crate::__verif::yield_point(70);
     if GLOBAL_INIT
         .compare_exchange(
             UNINITIALIZED,
@@ -361,9 +363,13 @@ pub fn set_global_default(dispatcher: Dispatch) -> Result<(), SetGlobalDefaultEr
         #[cfg(not(feature = "alloc"))]
         let collector = dispatcher.collector;
 
+        #[cfg(all(tracing_verif, feature = "std"))]
+        crate::__verif::yield_point(71);
         unsafe {
             GLOBAL_DISPATCH = Dispatch { collector };
         }
+        #[cfg(all(tracing_verif, feature = "std"))]
+        crate::__verif::yield_point(72);
         GLOBAL_INIT.store(INITIALIZED, Ordering::SeqCst);
         EXISTS.store(true, Ordering::Release);
         Ok(())
